@@ -415,11 +415,13 @@ pub struct GenCfg {
     pub extreme_alpha: bool,
     /// make [P;A] full column rank with bounded conditioning (adds a positive diagonal to P unless A is tall and dense)
     pub full_rank: bool,
+    /// with probability 0.4 scale P by 10^U(-d, d) (objective terms of very different magnitude)
+    pub p_scale_decades: f64,
 }
 
 impl GenCfg {
     pub fn small() -> Self {
-        GenCfg { nmax: 8, mmax: 20, allow_psd: true, allow_nonsym: true, allow_empty_cones: true, psd_max: 4, soc_max: 6, magnitude: 3.0, near_prob: 0.25, extreme_alpha: true, full_rank: false }
+        GenCfg { nmax: 8, mmax: 20, allow_psd: true, allow_nonsym: true, allow_empty_cones: true, psd_max: 4, soc_max: 6, magnitude: 3.0, near_prob: 0.25, extreme_alpha: true, full_rank: false, p_scale_decades: 0.0 }
     }
 }
 
@@ -541,6 +543,7 @@ fn gen_p(t: &mut Tape, n: usize) -> Mat {
             p[i][i] += t.uniform(0.1, 1.0);
         }
     }
+
     p
 }
 
@@ -579,6 +582,14 @@ pub fn gen_feasible_with(t: &mut Tape, cfg: &GenCfg, n: usize, cones: Vec<ConeSp
     if cfg.full_rank && !(dens == 1.0 && m >= 2 * n + 2) {
         for i in 0..n {
             p[i][i] += t.uniform(0.1, 1.0);
+        }
+    }
+    if cfg.p_scale_decades > 0.0 && t.chance(0.4) {
+        let f = 10f64.powf(t.uniform(-cfg.p_scale_decades, cfg.p_scale_decades));
+        for row in p.iter_mut() {
+            for v in row.iter_mut() {
+                *v *= f;
+            }
         }
     }
     let xs: Vec<f64> = (0..n).map(|_| t.nice(1.5)).collect();
